@@ -16,7 +16,8 @@
 //!               interactions (compared with the real AIRs).
 //! Implementation oracles (violations): an alteration turns a rejected proof of an invalid trace
 //! into an accepted one; field-parameter / table-set contradictions not rejected; a serialized
-//! and deserialized proof verifies differently or re-serializes differently; panics.
+//! and deserialized proof verifies differently or re-serializes differently; any panic of the verifier
+//! (F-C16-1, a panic on an under-declared preprocessed width, is fixed: the corpus case must be rejected).
 //!
 //! Invalid-trace proofs can only be produced without `debug_assertions` (the p3 prover checks
 //! constraints in debug builds), so `bin/checks_c16.py` runs this with the release harness.
@@ -91,7 +92,10 @@ fn classify_err(e: &BatchStarkProverError) -> Outcome {
         BatchStarkProverError::Verify(s) if s.starts_with("unknown non-primitive op") => Outcome::UnknownOp,
         BatchStarkProverError::Verify(s) => {
             // e.g. Verification(InvalidProofShape(TraceLocalWidthMismatch { .. })), Lookup(..)
-            let coarse = if s.contains("InvalidProofShape") {
+            let coarse = if s.starts_with("preprocessed width mismatch") {
+                // declared-width check of `verify` (fix of F-C16-1)
+                "shape:DeclaredPreprocessedWidthVsAir".into()
+            } else if s.contains("InvalidProofShape") {
                 let inner = s.split("InvalidProofShape(").nth(1).map(ident_prefix).unwrap_or_default();
                 format!("shape:{inner}")
             } else if s.contains("Lookup(") {
